@@ -36,18 +36,18 @@ func (p Principal) TufID() string {
 	if p.Person {
 		return p.ID
 	}
-	return keys.Get(p.Keys[0]).KeyID
+	return keys.ByName(p.Keys[0]).KeyID
 }
 
 func (p Principal) Tuf() tuf.Principal {
 	if p.Person {
 		as := []*keys.Actor{}
 		for _, k := range p.Keys {
-			as = append(as, keys.Get(k))
+			as = append(as, keys.ByName(k))
 		}
 		return keys.Person(p.ID, p.Identities, as...)
 	}
-	return keys.Get(p.Keys[0]).KeyPrincipal()
+	return keys.ByName(p.Keys[0]).KeyPrincipal()
 }
 
 type Rule struct {
@@ -120,7 +120,7 @@ func (p Policy) Clone() Policy {
 func signEnv(env *sslibdsse.Envelope, signers []string) (*sslibdsse.Envelope, error) {
 	var err error
 	for _, s := range signers {
-		env, err = dsse.SignEnvelope(Ctx, env, keys.DSSE{A: keys.Get(s)})
+		env, err = dsse.SignEnvelope(Ctx, env, keys.DSSE{A: keys.ByName(s)})
 		if err != nil {
 			return nil, err
 		}
@@ -170,7 +170,7 @@ func (p Policy) BuildRoot() (*sslibdsse.Envelope, error) {
 		}
 	}
 	for _, a := range p.Apps {
-		if err := root.AddGitHubAppPrincipal(a.Name, keys.Get(a.Key).KeyPrincipal()); err != nil {
+		if err := root.AddGitHubAppPrincipal(a.Name, keys.ByName(a.Key).KeyPrincipal()); err != nil {
 			return nil, err
 		}
 		if a.Trusted {
@@ -308,7 +308,7 @@ func setSigner(b Backend, name string) bool {
 		b.SetSigner(nil)
 		return false
 	}
-	b.SetSigner(keys.Get(name))
+	b.SetSigner(keys.ByName(name))
 	return true
 }
 
